@@ -61,7 +61,9 @@ PROPS = {
     ),
     "C05": dict(
         lean_props=["MayVerif.Props.C05"],
-        families=[dict(mode="det", name="mutex", quick=600, thorough=20000, nontrivial=r" q\.push ")],
+        families=[dict(mode="det", name="mutex", quick=600, thorough=20000, nontrivial=r" q\.push "),
+                  # systematic: every schedule with <= 2 preemptions of a few seeded scenarios, on the real code
+                  dict(mode="detx", name="mutex", quick=4, thorough=64, nontrivial=r" q\.push ")],
         trusted_base=TB_COMMON + [
             "ThreadPark is replaced by the controller's virtual token in det mode (the real parking_lot implementation is not exercised there)",
             "may_queue::mpsc::Queue (the waiter queue) is an atomic FIFO at this layer (C03 is its own check)",
